@@ -208,6 +208,29 @@ def exponent_lcm(ev, xs):
     return out[0]
 
 
+def staged_zero(ev, x, units_from=None, depths=(1, 2, 3, 4, None), setup=None):
+    """x == 0 decided with inner sum atoms kept opaque first (cheap; sound: an identity between expressions with opaque
+    sub-terms holds for every value of them), then with deeper expansion.  `setup(sy)` configures each NFSym."""
+    from .radnf import RadNF, Unsupported
+    for d in depths:
+        sy = NFSym(ev)
+        sy.max_depth = d
+        if setup is not None:
+            setup(sy)
+        try:
+            cx = sy.conv(x)
+        except TypeError:
+            return False
+        if is_zero(cx):
+            return True
+        if d is None:
+            try:
+                return RadNF(sy.units).is_zero(cx)
+            except Unsupported:
+                return False
+    return False
+
+
 class NFSym:
     """Monomial normal forms -> sympy expressions with ONE naming scheme for atoms: every
     `atom ** exponent` factor with a constant rational exponent becomes (expr of the atom) ** q,
@@ -225,6 +248,9 @@ class NFSym:
         self.powdef = {}        # opaque power symbol -> (base factor expr, exponent shape as field element)
         self.orient = None      # optional callable: sympy polynomial factor -> -1 if it is negative on the domain
         self.common_den = None  # optional ring element: every exponent is decomposed over this one denominator
+        self.max_depth = None   # optional: sum atoms nested deeper than this stay opaque real symbols (sound for proving)
+        self._depth = 0
+        self.opaque_pred = None  # optional: sum atoms (below the top level) whose key satisfies this stay opaque
 
     def sym(self, key):
         if key not in self.syms:
@@ -247,9 +273,20 @@ class NFSym:
         if k in self.memo:
             return self.memo[k]
         if k in self.ev.sums:
+            if (self.max_depth is not None and self._depth >= self.max_depth) or \
+                    (self.opaque_pred is not None and self._depth >= 1 and self.opaque_pred(k)):
+                if 'opaque:' + k not in self.syms:
+                    self.syms['opaque:' + k] = sympy.Symbol('b%d' % len(self.syms), real=True)
+                v = self.syms['opaque:' + k]
+                self.memo[k] = v
+                return v
             v = sympy.Integer(0)
-            for t in self.ev.sums[k].terms:
-                v += self.mono(t)
+            self._depth += 1
+            try:
+                for t in self.ev.sums[k].terms:
+                    v += self.mono(t)
+            finally:
+                self._depth -= 1
         elif k.startswith('num(') and k.endswith(')'):
             q = Fraction(k[4:-1])               # a rational constant kept as a base by NFEval.power
             v = sympy.Rational(q.numerator, q.denominator)
